@@ -69,11 +69,15 @@ func genC14(r *simrt.RNG, tier string, variant int) Plan {
 		// the peer stops reading for a while (full send buffer): a writer blocks inside
 		// Write while holding the write lock; 3 s is far beyond every ping interval here
 		p.Faults = append(p.Faults, Fault{Kind: "wstall", Dir: Pick(r, []string{"c2s", "s2c"}), Pipe: 0, Frame: -1, Phase: 5 + r.Intn(60),
-			DurNs: Pick(r, []int64{int64(50e6), int64(3e9)})})
-		if p.Faults[len(p.Faults)-1].DurNs > int64(1e9) {
-			// keepalive must tolerate the stall: this is a slow peer, not a dead one
+			DurNs: Pick(r, []int64{int64(50e6), int64(3e9), int64(3e9), int64(14e9), int64(45e9)})})
+		if d := p.Faults[len(p.Faults)-1].DurNs; d > int64(1e9) {
+			// keepalive must tolerate the stall: this is a slow peer, not a dead one,
+			// however long a single message takes to get through
 			p.Clients[0].TimeoutNs = int64(20e9)
-			p.Params["long_stall"] = 1
+			if 4*d > p.Clients[0].TimeoutNs {
+				p.Clients[0].TimeoutNs = 4 * d
+			}
+			p.Params["long_stall"] = d
 		}
 	}
 	p.Params["close_after"] = int64(r.Intn(3)) // 0: no close, 1: close at the end, 2: close mid-workload
@@ -151,8 +155,11 @@ func runC14(e *Env, p *Plan) {
 	if !e.S.Settle(400 * time.Millisecond) {
 		return
 	}
-	if p.Param("long_stall", 0) > 0 {
-		if !e.S.Settle(4 * time.Second) {
+	if d := p.Param("long_stall", 0); d > 0 {
+		if d == 1 {
+			d = int64(3e9) // replay files written before the stall length became a parameter
+		}
+		if !e.S.Settle(dur(d) + time.Second) {
 			return
 		}
 	}
